@@ -141,17 +141,17 @@ func c17IndepOps(in *c17indep) []c17op {
 }
 
 type c17result struct {
-	OpCounts   map[string]int64  `json:"op_counts"`
-	Mismatches []string          `json:"mismatches"`
-	NMismatch  int64             `json:"nmismatch"`
-	Overlap    map[string]int64  `json:"overlap"` // "opA|opB" -> observations of both in flight on one AST
-	Missing    []string          `json:"missing_overlaps"`
-	Rounds     int               `json:"rounds"`
-	Goroutines int               `json:"goroutines"`
-	Samples    []string          `json:"samples"`
-	Panics     []string          `json:"panics"`
-	Done       bool              `json:"done"`
-	Cases      []uint64          `json:"cases"` // hashes of distinct (operation, input) pairs whose twin was computed
+	OpCounts   map[string]int64 `json:"op_counts"`
+	Mismatches []string         `json:"mismatches"`
+	NMismatch  int64            `json:"nmismatch"`
+	Overlap    map[string]int64 `json:"overlap"` // "opA|opB" -> observations of both in flight on one AST
+	Missing    []string         `json:"missing_overlaps"`
+	Rounds     int              `json:"rounds"`
+	Goroutines int              `json:"goroutines"`
+	Samples    []string         `json:"samples"`
+	Panics     []string         `json:"panics"`
+	Done       bool             `json:"done"`
+	Cases      []uint64         `json:"cases"` // hashes of distinct (operation, input) pairs whose twin was computed
 }
 
 func c17Worker(args []string) int {
